@@ -1,4 +1,5 @@
 import DeapModel.Core.Selection
+import DeapModel.Core.SelectionHist
 import Driver.Proto
 /-!
 Protocol handler for C06 (selection operators).
@@ -8,6 +9,10 @@ Populations travel as the `;`-separated list of the individuals' weighted-value 
 the rest of the line, one token per recorded `random.*` call:
 `c:<i>` choice, `s:<i,j,…>` sample, `p:<i,j,…>` shuffle, `r:<q>` random()/uniform draw.
 A request may be prefixed by `canon <map>` (see `canonAnswer`).
+`hist <segment> | <segment> | …` is a session (`Selection.runHistory`): a segment is `class <weights|inh> <parent|root>`
+or `call <class> [canon <map>] <request>` where the request is one of the above with `@` in place of the weights
+(they are resolved from the class table through the MRO); ONE tape — the segments' tapes concatenated — is threaded
+through all calls.  Answer: the calls' results separated by `|`, then the number of unread tape entries.
 Answers: the selected population indices, then the number of unread tape entries; `none` when
 the model has no result (bad tape / Python exception).
 -/
@@ -106,7 +111,75 @@ def canonAnswer (m : List Nat) (ans : String) : String :=
     | none => ans
   | [] => ans
 
+/-! ### Sessions -/
+
+def splitBar : List String → List (List String)
+  | [] => [[]]
+  | "|" :: rest => [] :: splitBar rest
+  | x :: rest =>
+    match splitBar rest with
+    | [] => [[x]]
+    | s :: ss => (x :: s) :: ss
+
+/-- A request of a session: population, selector, and the request's own stretch of the tape. -/
+def parseReq : List String → Option (Pop × Sel × Tape)
+  | ["best", ps, ks] => do let p ← mkPop ps; let k ← parseNat ks; pure (p, Sel.best k, [])
+  | ["worst", ps, ks] => do let p ← mkPop ps; let k ← parseNat ks; pure (p, Sel.worst k, [])
+  | "random" :: ns :: ks :: tape => do
+    let n ← parseNat ns; let k ← parseNat ks; let t ← parseTape tape
+    pure (List.replicate n ({ wv := [] } : Ind), Sel.random k, t)
+  | "tourn" :: ps :: ks :: ts :: tape => do
+    let p ← mkPop ps; let k ← parseNat ks; let s ← parseNat ts; let t ← parseTape tape
+    pure (p, Sel.tourn k s, t)
+  | "roulette" :: "@" :: ps :: ks :: tape => do
+    let p ← mkPop ps; let k ← parseNat ks; let t ← parseTape tape; pure (p, Sel.roulette k, t)
+  | "sus" :: "@" :: ps :: ks :: tape => do
+    let p ← mkPop ps; let k ← parseNat ks; let t ← parseTape tape; pure (p, Sel.sus k, t)
+  | "dtourn" :: ps :: szs :: ks :: fss :: pss :: ffs :: tape => do
+    let p ← mkPopSized ps szs; let k ← parseNat ks; let fs ← parseNat fss
+    let par ← parseRat pss; let ff ← parseBool ffs; let t ← parseTape tape
+    pure (p, Sel.dtourn k fs par ff, t)
+  | "lex" :: rs :: "@" :: ps :: ks :: tape => do
+    let r ← parseRule rs; let p ← mkPop ps; let k ← parseNat ks; let t ← parseTape tape
+    pure (p, Sel.lex r k, t)
+  | "dcd" :: ps :: cds :: ks :: tape => do
+    let p ← mkPopCd ps cds; let k ← parseNat ks; let t ← parseTape tape; pure (p, Sel.dcd k, t)
+  | _ => none
+
+/-- A segment: the event, the canon map of a call (`none` for a class statement), its tape. -/
+def parseSeg : List String → Option (Event × Option (List Nat) × Tape)
+  | ["class", ws, ps] => do
+    let w ← if ws = "inh" then pure none else (parseList parseRat ws).map some
+    let p ← if ps = "root" then pure none else (parseNat ps).map some
+    pure (Event.defclass ⟨w, p⟩, none, [])
+  | "call" :: cs :: "canon" :: ms :: rest => do
+    let c ← parseNat cs; let m ← parseList parseNat ms; let (p, s, t) ← parseReq rest
+    if m.length = p.length then pure (Event.call c p s, some m, t) else none
+  | "call" :: cs :: rest => do
+    let c ← parseNat cs; let (p, s, t) ← parseReq rest
+    pure (Event.call c p s, some (List.range p.length), t)
+  | _ => none
+
+def canonList (m : List Nat) (l : List Nat) : Option (List Nat) := l.mapM (fun i => m[i]?)
+
+def handleHist (toks : List String) : String :=
+  match (splitBar toks).mapM parseSeg with
+  | none => "bad-op"
+  | some segs =>
+    let events := segs.map (fun s => s.1)
+    let maps := segs.filterMap (fun s => s.2.1)
+    let tape := (segs.map (fun s => s.2.2)).flatten
+    match runHistory [] events tape with
+    | none => "none"
+    | some (_, outs, t) =>
+      if outs.length = maps.length then
+        match (List.zip maps outs).mapM (fun mo => canonList mo.1 mo.2) with
+        | some ls => "|".intercalate (ls.map (showList toString)) ++ " " ++ toString t.length
+        | none => "bad-op"
+      else "bad-op"
+
 def handle : List String → String
+  | "hist" :: rest => handleHist rest
   | "canon" :: ms :: rest =>
     match parseList parseNat ms with
     | some m => canonAnswer m (handleCore rest)
